@@ -4,5 +4,13 @@
 EXTENDS CookDoc
 AllExtensions == AllExt
 NoExtensions == {}
+SyntaxAsExt == Ext
+OnlyAlias == {"ALIAS"}
+OnlyRange == {"RANGE"}
+OnlyAdvanced == {"ADVANCED_UNITS"}
+OnlyModes == {"MODES"}
+OnlyInline == {"INLINE"}
+ModifiersOnly == {"MODIFIERS"}
+ModifiersAndIntermediate == {"MODIFIERS", "INTERMEDIATE"}
 StopWhenDone == ~Done     \* state constraint: nothing is explored beyond a finished document
 =============================================================================
